@@ -113,7 +113,9 @@ func compsWithin(dest, p []string) bool {
 	return true
 }
 
-func cleanIsDot(name string) bool { return len(pushCleanFirst(nil, name)) == 0 && !strings.HasPrefix(name, "/") && !strings.HasPrefix(strings.TrimLeft(name, "./"), "..") && len(pushRaw(nil, name)) == 0 && !containsUp(name) }
+func cleanIsDot(name string) bool {
+	return len(pushCleanFirst(nil, name)) == 0 && !strings.HasPrefix(name, "/") && !strings.HasPrefix(strings.TrimLeft(name, "./"), "..") && len(pushRaw(nil, name)) == 0 && !containsUp(name)
+}
 
 func containsUp(name string) bool {
 	up := 0
